@@ -123,3 +123,11 @@ add("C11", "exploration",
     "cross-checked against brand-new interpreters; stack traces and memory addresses are masked.",
     "stateful / model-based property testing (Hypothesis RuleBasedStateMachine) with a fresh-process reference oracle",
     "DESIGN.md section 11")
+add("C14", "exploration",
+    "Generated line sequences (valid requests with markers, every class of malformed / undecodable / wrong-shape / "
+    "failing request, blank lines, EXIT anywhere or EOF) are fed to the real daemon process in batch and in lock-step "
+    "mode; the answers are compared with the model (one line per non-blank request, in order, base64 JSON objects, "
+    "valid requests equal compile_code of that request), exit status and leftover children are checked.",
+    "Input lines are UTF-8 text without CR/LF; expected results computed in the checker's process.",
+    "model-based property testing (Hypothesis) of the real daemon process: sequence generator + reference model of the line protocol",
+    "DESIGN.md section 14")
